@@ -67,7 +67,7 @@ func ensureDevModeFiles() error {
 		dir := filepath.Join(filepath.Dir(self), "corpus")
 		h := generatecmd.NewFSEventHandler(slog.New(slog.NewTextHandler(io.Discard, nil)), dir, true, nil, false, true,
 			func(string, []byte) error { return nil }, false)
-		for _, f := range []string{"c.templ", "lit.templ"} {
+		for _, f := range []string{"c.templ", "lit.templ", "shapes.templ"} {
 			if _, err := h.HandleEvent(context.Background(), fsnotify.Event{Name: filepath.Join(dir, f), Op: fsnotify.Write}); err != nil {
 				devModeErr = err
 				return
@@ -78,14 +78,14 @@ func ensureDevModeFiles() error {
 }
 
 type c14render struct {
-	Spec    int
-	Kind    string // "render" | "http" | "shared"
-	Fault   Fault
-	FailAt  int
-	got     []byte
-	err     error
-	fired   bool
-	status  int
+	Spec   int
+	Kind   string // "render" | "http" | "shared"
+	Fault  Fault
+	FailAt int
+	got    []byte
+	err    error
+	fired  bool
+	status int
 }
 
 // parkRecorder is an http.ResponseWriter whose writes are scheduler seams.
